@@ -3,8 +3,11 @@
   the program image differs from the Go table entry (or from the canonical record pinned in /verif).
   Usage: lake env lean --run Tools/ZexDiff.lean
 -/
-import Z80.Props.C17
-open Z80 Z80.Gen Z80.Spec Z80.Props.C17
+import Z80.Spec.ZexEncode
+import Z80.Spec.ZexCanon
+open Z80 Z80.Gen Z80.Spec
+abbrev encode := encodeCase
+abbrev normalise := normaliseRec
 
 def showRec (r : List Nat × String) : String := toString r.1 ++ " \"" ++ r.2 ++ "\""
 
